@@ -74,9 +74,7 @@ func FeasibleEdges(ph *ssa.Phi, gs []Guard) []bool {
 			if !isPhi {
 				break
 			}
-			if q == ph {
-				continue
-			}
+			// (q == ph: an outcome about the phi itself, e.g. `rec != nil`, rules out its own nil edges)
 			for _, g := range gs {
 				want, kind := guardOn(g, q)
 				if kind == "" {
